@@ -220,11 +220,11 @@ func richAxes(legacy bool) []axis {
 
 	add("dns", "dns", resolverLetters()...)
 	add("dns", "router.routes.0.resolver", "d0", omitted, "dX")
-	add("dns", "router.routes.0.toPrefixSets", L{"ps0"}, omitted, L{"psX"})
-	add("dns", "router.prefixSets", prefixSetLetters()...)
+	add("sets", "router.routes.0.toPrefixSets", omitted, L{"ps0"}, L{"psX"})
+	add("sets", "router.prefixSets", prefixSetLetters()...)
 
 	add("sets", "router.domainSets", domainSetLetters()...)
-	add("sets", "router.routes.0.toDomainSets", L{"ds0"}, omitted, L{"dsX"})
+	add("sets", "router.routes.0.toDomainSets", omitted, L{"ds0"}, L{"dsX"})
 	add("sets", "router.routes", routeListLetters()...)
 	return ax
 }
@@ -303,8 +303,8 @@ func domainSetLetters() []any {
 func prefixSetLetters() []any {
 	ps := func(name, path string) J { return J{"name": name, "path": path} }
 	return []any{
-		L{ps("ps0", "@TMP@/ps.txt")},
 		omitted,
+		L{ps("ps0", "@TMP@/ps.txt")},
 		L{ps("ps0", "@TMP@/missing_ps.txt")},
 		L{ps("ps0", "@TMP@/ps_bad.txt")},
 		L{ps("ps0", "@TMP@/ps.txt"), ps("ps0", "@TMP@/ps_copy.txt")}, // duplicate names
@@ -313,7 +313,8 @@ func prefixSetLetters() []any {
 }
 
 func routeListLetters() []any {
-	r0 := J{"name": "r0", "client": "g0", "resolver": "d0", "fromServers": L{"s1"}, "toDomainSets": L{"ds0"}, "toPrefixSets": L{"ps0"}}
+	r0 := J{"name": "r0", "client": "g0", "resolver": "d0", "fromServers": L{"s1"}}
+	r0full := J{"name": "r0", "client": "g0", "resolver": "d0", "fromServers": L{"s1"}, "toDomainSets": L{"ds0"}, "toPrefixSets": L{"ps0"}}
 	r1 := J{"name": "r1", "client": "reject", "network": "udp", "fromServers": L{"s0"}}
 	r0b := J{"name": "r0", "client": "c0"}
 	r2 := J{"name": "r2", "client": "c0", "fromPrefixSets": L{"ps0"}, "toMatchedDomainExpectedPrefixSets": L{"ps0"}, "toDomainSets": L{"ds0"}}
@@ -326,6 +327,7 @@ func routeListLetters() []any {
 		L{r0, r0b}, // duplicate route names
 		L{r0, r2},
 		L{r0, r3},
+		L{r0full},
 	}
 }
 
